@@ -164,15 +164,16 @@ CHECKS = {
     "C17": dict(
         text="With the patch areas scaled through the module namespace (24/32 and 20..56 bytes) and a symbolic environmental key (2..3/6 "
         "bytes), protocol value and option byte, for every non-empty subset of the four guard options followed by the checksum setting, "
-        "lead offsets 0/2: (recovery) with the true key among the candidate keys — behind a wrong candidate — BeaconConfig.from_file "
+        "lead offsets 0/2: (recovery) with the true key among the candidate keys — behind a wrong candidate that fails the checksum — BeaconConfig.from_file "
         "returns the original configuration byte for byte, a key that unmasks it, the guard settings in order with their values, the stored "
         "checksum and both offsets; (safety) with ARBITRARY candidate keys and an arbitrary stored checksum the scanner extracts exactly the "
         "stored checksum and reports a configuration only if payload_checksum(block)+1 equals it, otherwise the guard metadata alone; "
         "payload_checksum equals the weighted byte sum modulo 99999999.",
         note="Trusted: z3; symx; find_xor_key_candidates (n-gram frequency heuristic over collections.Counter) is replaced by a candidate "
         "list — that the heuristic ranks the true key for every input is statistical and NOT claimed (it is run for real, at the real "
-        "6144/2048 sizes, on concrete validation vectors each run). Validity predicate: the masked payload contains no default-key "
-        "header and no second guard marker.",
+        "6144/2048 sizes, on concrete validation vectors each run). Validity predicate: the file contains no default-key header, no second "
+        "guard marker (except the planted look-alike of the dedicated scenarios), and the wrong candidate does not collide on the checksum "
+        "(the weighted sum is the only acceptance criterion: a colliding key is legitimately accepted).",
         ref="§4 C17"),
     "C10": dict(
         text="(1) z3 decides over the rule table of the loaded grammar (246 productions after EBNF expansion, symbolic production index) that "
